@@ -85,6 +85,8 @@ func (o c11Op) String() string {
 		return fmt.Sprintf("loadFromContent(f%d,unsaved)", o.Root)
 	case "clear":
 		return "clear"
+	case "rewrite-samestamp-invalidate":
+		return fmt.Sprintf("%s(f%d)", o.Kind, o.File)
 	}
 	return fmt.Sprintf("%s(f%d,row=%04b)", o.Kind, o.File, o.Row)
 }
@@ -133,23 +135,27 @@ func c11Counts(tier string) (enum, random, server int64) {
 var c11Alphabet = []string{"load", "edit-invalidate", "edit-clear", "clear"}
 
 // random histories also use unsaved buffers (LoadFromContent) and small depth limits
-var c11AlphabetExt = []string{"load", "load", "edit-invalidate", "edit-clear", "clear", "load-buffer"}
+var c11AlphabetExt = []string{"load", "load", "edit-invalidate", "edit-clear", "clear", "load-buffer", "rewrite-samestamp-invalidate"}
 
 func init() {
 	Register(&Prop{
 		ID:    "C11",
-		Rule:  "histories of load(root_i) / edit a file (new include row and content) + InvalidateFile / edit without invalidation followed by ClearCache / ClearCache (random histories also: LoadFromContent of an unsaved buffer, and depth limits 1-4 set on both loaders) on ONE shared loader over 30 fixed 4-file include graphs (chains >= 3 deep, diamonds, cycles below the root); after every load the result (file set, file order, content projection of every journal, load errors with their directive lines, parse errors of included files (a third of the file versions has syntax errors)) is compared with a fresh loader on the same disk state. All histories of length <= 4 over the 4-operation alphabet are enumerated per graph (thorough: all 30 graphs x 340; quick: a seeded slice), random histories of length 5-6 beyond; server level: open / save included file / change sequences followed by references and completion probes compared with a fresh server on the same disk state. Non-trivial = history containing a load after an edit or a second load; distinct by history+graph hash.",
+		Rule:  "histories of load(root_i) / edit a file (new include row and content) + InvalidateFile / edit without invalidation followed by ClearCache / ClearCache (random histories also: LoadFromContent of an unsaved buffer, a rewrite with other text of the same byte length and the modification time put back + InvalidateFile, and depth limits 1-4 set on both loaders) on ONE shared loader over 30 fixed 4-file include graphs (chains >= 3 deep, diamonds, cycles below the root); after every load the result (file set, file order, content projection of every journal, load errors with their directive lines, parse errors of included files (a third of the file versions has syntax errors)) is compared with a fresh loader on the same disk state. All histories of length <= 4 over the 4-operation alphabet are enumerated per graph (thorough: all 30 graphs x 340; quick: a seeded slice), random histories of length 5-6 beyond; server level: open / save included file / change sequences followed by references and completion probes compared with a fresh server on the same disk state. Non-trivial = history containing a load after an edit or a second load; distinct by history+graph hash.",
 		Notes: []string{"parse errors of included files are excluded (the server drops them)", "every history ends with a load so that its effect is observed"},
 		Cases: func(tier string) int64 {
 			a, b, s := c11Counts(tier)
 			return a + b + s
 		},
-		MustObserve: []string{"histories", "loads_compared", "loads_after_edit"},
+		MustObserve: []string{"histories", "loads_compared", "loads_after_edit", "same_stamp_rewrites"},
 		RunCase:     runC11,
 	})
 }
 
-func c11WriteFile(g *incGraph, dir string, i int, ver int) {
+func c11WriteFile(g *incGraph, dir string, i int, ver int) { c11WriteFileFlip(g, dir, i, ver, 0) }
+
+// c11WriteFileFlip: flip changes one letter of the marker account and nothing else, so that two
+// flips of one version have the same byte length
+func c11WriteFileFlip(g *incGraph, dir string, i int, ver int, flip int) {
 	p := filepath.Join(dir, g.fileName(i))
 	var sb strings.Builder
 	for k := 0; k < i*igLineStep; k++ {
@@ -160,12 +166,27 @@ func c11WriteFile(g *incGraph, dir string, i int, ver int) {
 			fmt.Fprintf(&sb, "include %s\n", g.fileName(j))
 		}
 	}
-	fmt.Fprintf(&sb, "\n2019-01-0%d marker f%d v%d\n    m:f%d:v%d  %d USD\n    assets:cash\n", i+1, i, ver, i, ver, ver+1)
+	fmt.Fprintf(&sb, "\n2019-01-0%d marker f%d v%d\n    m:f%d:v%d:%c  %d USD\n    assets:cash\n", i+1, i, ver, i, ver, 'a'+rune(flip%26), ver+1)
 	if (i+ver)%3 == 1 {
 		// some versions of some files carry syntax errors: they are part of the result (diagnostics)
 		fmt.Fprintf(&sb, "\n2019-02-0%d broken f%d v%d\n    m:broken  1 USD @@\n    assets:cash  = = 3\n", i+1, i, ver)
 	}
 	os.WriteFile(p, []byte(sb.String()), 0o644)
+}
+
+// c11RewriteSameStamp rewrites file i with other text of the same byte length and puts the
+// modification time back (cp -p, rsync -t, a coarse file-system clock): size and mtime say
+// "unchanged", the content is not. Returns false when the disk did not cooperate.
+func c11RewriteSameStamp(g *incGraph, dir string, i int, ver int, flip int) bool {
+	p := filepath.Join(dir, g.fileName(i))
+	before, err := os.Stat(p)
+	if err != nil {
+		return false
+	}
+	c11WriteFileFlip(g, dir, i, ver, flip)
+	os.Chtimes(p, before.ModTime(), before.ModTime())
+	after, err := os.Stat(p)
+	return err == nil && after.Size() == before.Size() && after.ModTime().Equal(before.ModTime())
 }
 
 func runC11(c *Ctx, idx int64) {
@@ -188,6 +209,8 @@ func runC11(c *Ctx, idx int64) {
 		case "edit-invalidate", "edit-clear":
 			o.File = r.Intn(4)
 			o.Row = uint32(r.Intn(16))
+		case "rewrite-samestamp-invalidate":
+			o.File = r.Intn(4)
 		}
 		return o
 	}
@@ -225,6 +248,7 @@ func runC11(c *Ctx, idx int64) {
 	defer os.RemoveAll(dir)
 	g := graphFromBits(c11Graphs[gi], 4)
 	vers := make([]int, 4)
+	flips := make([]int, 4)
 	for i := 0; i < 4; i++ {
 		c11WriteFile(g, dir, i, 0)
 	}
@@ -246,12 +270,21 @@ func runC11(c *Ctx, idx int64) {
 				g.Adj[o.File][j] = o.Row&(1<<uint(j)) != 0
 			}
 			vers[o.File]++
-			c11WriteFile(g, dir, o.File, vers[o.File])
+			c11WriteFileFlip(g, dir, o.File, vers[o.File], flips[o.File])
 			if o.Kind == "edit-invalidate" {
 				shared.InvalidateFile(filepath.Join(dir, g.fileName(o.File)))
 			} else {
 				shared.ClearCache()
 			}
+			edited = true
+		case "rewrite-samestamp-invalidate":
+			// other content, same size, same modification time: an invalidated file is read again
+			// whatever its stamp says
+			flips[o.File]++
+			if c11RewriteSameStamp(g, dir, o.File, vers[o.File], flips[o.File]) {
+				c.Count("same_stamp_rewrites", 1)
+			}
+			shared.InvalidateFile(filepath.Join(dir, g.fileName(o.File)))
 			edited = true
 		case "load-buffer":
 			// an open document with unsaved edits is resolved from its buffer; nothing else may
@@ -345,15 +378,30 @@ func c11Server(c *Ctx, idx int64) {
 	A.OpenWait(u0, string(b0))
 	var trace []string
 	vers := make([]int, 4)
+	flips := make([]int, 4)
 	n := r.Range(1, 4)
 	for k := 0; k < n; k++ {
 		f := r.Range(1, 3)
 		row := uint32(r.Intn(16))
-		for j := 0; j < 4; j++ {
-			g.Adj[f][j] = row&(1<<uint(j)) != 0
+		if r.Chance(1, 4) {
+			// rewritten with other text of the same size and the same modification time, then saved
+			row = 0
+			for j := 0; j < 4; j++ {
+				if g.Adj[f][j] {
+					row |= 1 << uint(j)
+				}
+			}
+			flips[f]++
+			if c11RewriteSameStamp(g, dirA, f, vers[f], flips[f]) {
+				c.Count("same_stamp_rewrites", 1)
+			}
+		} else {
+			for j := 0; j < 4; j++ {
+				g.Adj[f][j] = row&(1<<uint(j)) != 0
+			}
+			vers[f]++
+			c11WriteFileFlip(g, dirA, f, vers[f], flips[f])
 		}
-		vers[f]++
-		c11WriteFile(g, dirA, f, vers[f])
 		uf := A.URI(g.fileName(f))
 		bf, _ := os.ReadFile(A.Path(g.fileName(f)))
 		switch r.Intn(3) {
